@@ -20,6 +20,7 @@ Public = pointers, size_t lengths, and what the checker can derive from them (lo
 -/
 import Bee2V.C14.IRSound
 import Bee2V.Gen.C14IR
+import Bee2V.Gen.C14IR32
 
 namespace Bee2V.C14
 open Bee2V.C14.IR Bee2V.Gen.C14IR
@@ -43,6 +44,18 @@ theorem safe_routines_trace_independent (fn : Fun) (hfn : fn ∈ prog.funs) (fue
     (e1 e2 : Env) (h : LowEq fn e1 e2) :
     (exec prog true fuel fn.body e1).2 = (exec prog true fuel fn.body e2).2 :=
   checker_sound prog true prog_regular fn hfn fuel e1 e2 h
+
+/-- The same for the 32-bit-word configuration (`B_PER_W = 32`, `-U__SIZEOF_INT128__`: the
+`#if B_PER_W` branches, `dword = u64`), extracted into `Gen.C14IR32`. -/
+theorem prog32_regular : ctProg Bee2V.Gen.C14IR32.prog true = true := by decide
+
+theorem safe_routines_trace_independent_w32 (fn : Fun) (hfn : fn ∈ Bee2V.Gen.C14IR32.prog.funs) (fuel : Nat)
+    (e1 e2 : Env) (h : LowEq fn e1 e2) :
+    (exec Bee2V.Gen.C14IR32.prog true fuel fn.body e1).2 = (exec Bee2V.Gen.C14IR32.prog true fuel fn.body e2).2 :=
+  checker_sound _ true prog32_regular fn hfn fuel e1 e2 h
+
+theorem roots_translated_w32 :
+    Bee2V.Gen.C14IR32.roots.all (fun r => Bee2V.Gen.C14IR32.names.any (fun n => n.1 == r)) = true := by decide
 
 /-- Every routine that the source defines as `SAFE(f)` (found by scanning the source text) and
 every verification path has a translated body in `prog`. -/
